@@ -162,6 +162,128 @@ theorem sumOver_world (M : Model) (ν : BaseValues) (dom : Name → Nat) (hdom :
       simp only [conjunctOf, hkw, hvk, ivValue, nuOf]
       rfl
 
+
+/-- the order in which the nodes of a district are iterated is a permutation of the district -/
+def PermDistrict (dordf : List Var → List Var) : Prop := ∀ d, (dordf d).Perm d
+
+theorem PermDistrict.subset {dordf : List Var → List Var} (h : PermDistrict dordf) : SubsetOrder dordf :=
+  fun d x hx => (h d).mem_iff.1 hx
+
+theorem mem_toInterventions_unst (facts : SWFacts G w ev g nev) (pillow : List Var) (hp : ∀ v ∈ pillow, v ∈ g.nodes) (i : Iv) :
+    i ∈ ivsCanon (toInterventions pillow) ↔ ∃ v ∈ pillow, i = ⟨v.name, false⟩ := by
+  rw [mem_ivsCanon]
+  unfold toInterventions
+  simp only [List.mem_map]
+  constructor
+  · rintro ⟨v, hv, rfl⟩
+    refine ⟨v, hv, ?_⟩
+    rw [(facts.nodeOK v (hp v hv)).notIv]
+    rfl
+  · rintro ⟨v, hv, rfl⟩
+    refine ⟨v, hv, ?_⟩
+    rw [(facts.nodeOK v (hp v hv)).notIv]
+    rfl
+
+/-- **the variables of a district form a local set in the world of the district's Markov pillow** -/
+theorem localSet_district (M : Model) (ν : BaseValues) (hM : Compatible M G) (facts : SWFacts G w ev g nev)
+    {dordf : List Var → List Var} (hdo : PermDistrict dordf) (D : List Var) (hD : D ∈ (nsiSubgraph g).districts)
+    (pillow : List Var) (hp : g.markovPillow (dordf D) = .ok pillow) (τ : Valuation) :
+    LocalSet M (worldOf (nuOf ν τ) (ivsCanon (toInterventions pillow))) τ (D.map (·.name)) := by
+  have hwfn := wf_nsiSubgraph g
+  have hDmem : ∀ n ∈ D, n ∈ g.nodes ∧ isNotSelfIntervened n = true := fun n hn =>
+    (mem_nsiSubgraph_iff g n).1 ((districts_cover _ hwfn n).2 ⟨D, hD, hn⟩)
+  have hpspec := markovPillow_spec g (dordf D) pillow hp
+  have hpnode : ∀ v ∈ pillow, v ∈ g.nodes := by
+    intro v hv
+    obtain ⟨_, s, _, hvs⟩ := (hpspec v).1 hv
+    exact (facts.wf.di_mem _ hvs).1
+  have hmemw := mem_toInterventions_unst facts pillow hpnode
+  have hLU : ∀ i ∈ ivsCanon (toInterventions pillow), i.star = false := by
+    intro i hi
+    obtain ⟨v, _, rfl⟩ := (hmemw i).1 hi
+    rfl
+  intro V hV
+  obtain ⟨n, hnD, rfl⟩ := List.mem_map.1 hV
+  obtain ⟨hng, hnsi⟩ := hDmem n hnD
+  refine ⟨(hM.perm.mem_iff).2 (facts.nodeOK n hng).inG, ?_, ?_⟩
+  · apply forced_worldOf_none'
+    intro hmem
+    obtain ⟨i, hi, hin⟩ := List.mem_map.1 hmem
+    obtain ⟨v, hv, rfl⟩ := (hmemw i).1 hi
+    simp only at hin
+    -- a pillow node with the name of a district node
+    have hvD : v ∉ dordf D := ((hpspec v).1 hv).1
+    by_cases hvnsi : isNotSelfIntervened v = true
+    · have : v = n := facts.inj v (hpnode v hv) n hng hvnsi hnsi hin
+      exact hvD ((hdo D).mem_iff.2 (this ▸ hnD))
+    · have := (facts.selfIntervened v (hpnode v hv) (by simpa using hvnsi)).2
+      rw [hin] at this
+      exact facts.notW n hng hnsi this
+  · intro p hpp
+    obtain ⟨x, hxn, hxname⟩ := facts.rep n hng hnsi p (hM.pa_sub n.name p hpp)
+    by_cases hxD : x ∈ dordf D
+    · left
+      exact List.mem_map.2 ⟨x, (hdo D).mem_iff.1 hxD, hxname⟩
+    · right
+      have : x ∈ pillow := (hpspec x).2 ⟨hxD, n, (hdo D).mem_iff.2 hnD, hxn⟩
+      apply forced_unst ν τ _ hLU p
+      exact List.mem_map.2 ⟨⟨x.name, false⟩, (hmemw _).2 ⟨x, this, rfl⟩, hxname⟩
+
+/-- **c-component factorisation**: the joint local event of all non-self-intervened variables is the product over the
+districts of the counterfactual graph -/
+theorem mass_districts (M : Model) (hM : Compatible M G) (hn : ∀ pmf ∈ M.noise, pmf.sum = 1)
+    (facts : SWFacts G w ev g nev) (T : List Name) (hT : ∀ V, V ∈ T ↔ ∃ n ∈ (nsiSubgraph g).nodes, n.name = V) (τ : Valuation) :
+    mass M.noise (fun u => T.all (localOK M τ u)) =
+      ((nsiSubgraph g).districts.map fun D => mass M.noise (fun u => (D.map (·.name)).all (localOK M τ u))).prod := by
+  have hwfn := wf_nsiSubgraph g
+  rw [← mass_indep_list M.noise hn (fun (D : List Var) u => (D.map (·.name)).all (localOK M τ u))
+    (fun D j => ∃ V ∈ D.map (·.name), j ∈ M.lat V)]
+  · apply mass_congr
+    intro u
+    apply Bool.eq_iff_iff.2
+    simp only [List.all_eq_true, List.mem_map, forall_exists_index, and_imp, forall_apply_eq_imp_iff₂]
+    constructor
+    · intro h D hD n hnD
+      exact h n.name ((hT _).2 ⟨n, (districts_cover _ hwfn n).2 ⟨D, hD, hnD⟩, rfl⟩)
+    · intro h V hV
+      obtain ⟨n, hnN, rfl⟩ := (hT V).1 hV
+      obtain ⟨D, hD, hnD⟩ := (districts_cover _ hwfn n).1 hnN
+      exact h D hD n hnD
+  · intro D _ u u' huu
+    apply Bool.eq_iff_iff.2
+    simp only [List.all_eq_true]
+    constructor
+    · intro h V hV
+      have e : localOK M τ u V = localOK M τ u' V := localOK_dependsOn M τ V u u' (fun j hj => huu j ⟨V, hV, hj⟩)
+      rw [← e]
+      exact h V hV
+    · intro h V hV
+      have e : localOK M τ u V = localOK M τ u' V := localOK_dependsOn M τ V u u' (fun j hj => huu j ⟨V, hV, hj⟩)
+      rw [e]
+      exact h V hV
+  · apply List.Pairwise.imp_of_mem _ (districts_disjoint _ hwfn)
+    intro D D' hD hD' hdis j hj hj'
+    obtain ⟨V, hV, hjV⟩ := hj
+    obtain ⟨V', hV', hjV'⟩ := hj'
+    obtain ⟨a, haD, rfl⟩ := List.mem_map.1 hV
+    obtain ⟨b, hbD', rfl⟩ := List.mem_map.1 hV'
+    have haN : a ∈ (nsiSubgraph g).nodes := (districts_cover _ hwfn a).2 ⟨D, hD, haD⟩
+    have hbN : b ∈ (nsiSubgraph g).nodes := (districts_cover _ hwfn b).2 ⟨D', hD', hbD'⟩
+    obtain ⟨hag, hansi⟩ := (mem_nsiSubgraph_iff g a).1 haN
+    obtain ⟨hbg, hbnsi⟩ := (mem_nsiSubgraph_iff g b).1 hbN
+    by_cases hname : a.name = b.name
+    · have : a = b := facts.inj a hag b hbg hansi hbnsi hname
+      exact hdis a haD (this ▸ hbD')
+    · have hbi := hM.lat_bi a.name b.name hname ⟨j, hjV, hjV'⟩
+      have hab : a ≠ b := fun e => hname (by rw [e])
+      have hedge : g.BiEdge a b := facts.biRep a hag b hbg hansi hbnsi hab hbi
+      have hedge' : (nsiSubgraph g).BiEdge a b := by
+        unfold nsiSubgraph
+        rw [MG.biEdge_subgraph]
+        exact ⟨hedge, List.mem_filter.2 ⟨hag, hansi⟩, List.mem_filter.2 ⟨hbg, hbnsi⟩⟩
+      have : b ∈ D := (districts_spec _ hwfn D hD a haD b).2 (ReflTransGen.single hedge')
+      exact hdis b this hbD'
+
 end
 
 end Y0.Cf
